@@ -2689,7 +2689,8 @@ class TLSConnection(TLSRecordLayer):
                     self._pickServerKeyExchangeSig(settings,
                                                    clientHello,
                                                    cert_chain,
-                                                   privateKey)
+                                                   privateKey,
+                                                   version)
             except TLSHandshakeFailure as alert:
                 for result in self._sendError(
                         AlertDescription.handshake_failure,
@@ -4513,7 +4514,8 @@ class TLSConnection(TLSRecordLayer):
             sigHash, serverCertChain, privateKey = \
                 self._pickServerKeyExchangeSig(settings, clientHello,
                                                serverCertChain,
-                                               privateKey)
+                                               privateKey,
+                                               self.version)
         except TLSHandshakeFailure as alert:
             for result in self._sendError(
                     AlertDescription.handshake_failure,
